@@ -63,10 +63,32 @@ def other_families(chk, rng, thorough):
     from scipy.optimize import minimize
     found = 0
     plans = [('Shekel4', {'k': k}) for k in (1, 2, 3)] + [('Rastrigin', {'dim': n}) for n in (1, 2, 4)] + [('XSquared', {'dim': n}) for n in (1, 3, 5)]
-    plans += [('Grishagin', {'k': k}) for k in (range(1, 101) if thorough else rng.sample(range(1, 101), 4))]
+    plans += [('Grishagin', {'k': k}) for k in (range(1, 101) if thorough else rng.sample(range(2, 101), 5))]
     plans += [('GKLS', {'dim': d, 'k': k}) for d in (2, 3, 4, 5) for k in (range(1, 101) if thorough else rng.sample(range(1, 101), 2))]
+    # every one of the 400 GKLS instances: the declared optimum lies in the box and has the declared value
+    for d in (2, 3, 4, 5):
+        for k in range(1, 101):
+            pb = B.problem('GKLS', dim=d, k=k)
+            ko = pb.knownOptimum[0]
+            p = [float(v) for v in ko.point.floatVariables]; v = float(ko.functionValues[0].value)
+            chk.evaluations += 1
+            if any(not (-1.0 <= c <= 1.0) for c in p):
+                found += chk.violation('optimum', 'GKLS(%d,%d): declared optimum point %r outside the box' % (d, k, p), {'kind': 'instance', 'family': 'GKLS', 'args': {'dim': d, 'k': k}})
+            elif abs(B.calc(pb, p) - v) > 1e-4:
+                found += chk.violation('optimum', 'GKLS(%d,%d): objective at the declared optimum point is %r, declared value %r' % (d, k, B.calc(pb, p), v),
+                                       {'kind': 'instance', 'family': 'GKLS', 'args': {'dim': d, 'k': k}})
+            if found > 3:
+                return found
     for fam, kw in plans:
+        if fam == 'Grishagin':      # an instance is the same function however often and in whatever order it is constructed
+            B.problem(fam, k=kw['k'] - 1 if kw['k'] > 1 else 2)
+            first = B.problem(fam, **kw)
         pb = B.problem(fam, **kw)
+        if fam == 'Grishagin':
+            ys = [[rng.random(), rng.random()] for _ in range(5)]
+            if any(B.calc(first, y) != B.calc(pb, y) for y in ys) or [float(t) for t in first.knownOptimum[0].point.floatVariables] != [float(t) for t in pb.knownOptimum[0].point.floatVariables]:
+                found += chk.violation('optimum', 'Grishagin(%d) constructed twice gives two different functions / declared optima' % kw['k'], {'kind': 'instance', 'family': fam, 'args': kw})
+                continue
         lo = [float(v) for v in pb.lowerBoundOfFloatVariables]; hi = [float(v) for v in pb.upperBoundOfFloatVariables]
         ko = pb.knownOptimum[0]
         p = [float(v) for v in ko.point.floatVariables]; v = float(ko.functionValues[0].value)
